@@ -129,7 +129,7 @@ def run_case(case):
             for name, fn in (("nu", f.nearest_unknown), ("nr", f.nearest_right)):
                 before = snapshot(f)
                 try:
-                    r = tuple(fn(k))
+                    r = tuple(fn(common.vary(k, True)))
                     out = "p " + ps(r)
                 except PerfectVisibility:
                     r, out = "perfect", "exn PerfectVisibility"
@@ -175,7 +175,7 @@ def run_case(case):
                 old = old + (9, 9)
             ok_expected = (old in spec) and valid_subs(subs)
             try:
-                new = fog.explore(old, subs)
+                new = fog.explore(common.vary(old, True), common.vary([common.vary(x, True) for x in subs]))
                 out = str(nfogs)
             except ValidationError:
                 new, out = None, "exn ValidationError"
@@ -223,7 +223,7 @@ def run_case(case):
                 prefixes.append((9, 9, 9, 9, 9))
             ok_expected = all(p in spec for p in prefixes) and len(set(prefixes)) == len(prefixes)
             try:
-                new = fog.mark_all_complete(prefixes)
+                new = fog.mark_all_complete(common.vary([common.vary(x, True) for x in prefixes]))
                 out = str(nfogs)
             except ValidationError:
                 new, out = None, "exn ValidationError"
